@@ -4,10 +4,11 @@
           parser.args, lazily added --print_shtab, the three set-without-reset context variables) under a finite
           universe of public calls, every call split into small instructions (enter manager / set variable / argv item /
           raise / leave in finally / print point).  Finite state: histories of ANY length.  Invariants: Balanced,
-          FramesExplainCtx, NoStaleRead, AlgIsRefOnFresh, HistoryIndependent (outside the named deviation
-          PendingResidue), DeviationShape, PendingIsLocal.  MC_Context_repair: the same with the proposed repair,
-          HistoryIndependent without exception.  MC_Context_strict: the unguarded invariant, expected to be violated on
-          the pinned tree (TLC's counterexample is the finding).
+          FramesExplainCtx, NoStaleRead (also: no managed variable is read outside its manager at another value than
+          the initial one), AlgIsRefOnFresh, HistoryIndependent, DeviationShape, RepairClears, PendingIsLocal.  The model is
+          the REPAIRED design (ClearOnError = TRUE, fix: commit 9a553c5): HistoryIndependent holds without exception.
+          MC_Context_prefix: the design before the repair, run only as documentation (TLC's counterexample of the unguarded
+          property is copied into the evidence; it cannot fail the check).
   REPLAY  (spec -> code) TLC prints every quiescent state with all outgoing transitions; the harness covers EVERY
           transition with tours from the initial state on real reused parsers (each tour in a forked child).
   TRACE   (code -> spec) seeded random histories (<= 12 / <= 40 calls) over a richer call grammar (longer argv, both
@@ -29,7 +30,7 @@ import os
 import re
 import signal
 import sys
-from typing import List, Optional
+from typing import Dict, List, Optional
 
 from ..lib import common, tlc
 from ..lib.evidence import Report, machinery_failure
@@ -79,6 +80,11 @@ def build(root: str) -> dict:
         p.add_argument("--x", type=int, default=1)
         p.add_argument("--w", type=Optional[List[int]], default=None)
         p.add_argument("--cls", type=Base, default=lazy_instance(Sub1, m="d"))
+        # parser-owned defaults with containers nested INSIDE a list (a shallow copy anywhere would let one call's
+        # coercion or class change leak into the next call); compared type-exactly (1 is not 1.0)
+        p.add_argument("--grid", type=List[List[float]], default=[[1, 2], [3, 4]])
+        p.add_argument("--table", type=List[Dict[str, float]], default=[{"w": 1}])
+        p.add_argument("--stages", type=List[List[Base]], default=[[{"class_path": MODNAME + ".Sub1", "init_args": {"m": "q"}}]])
         p.link_arguments("x", "cls.init_args.n", compute_fn=link_fn)
         sc = p.add_subcommands(required=False)
         a = ArgumentParser(exit_on_error=False)
@@ -95,6 +101,8 @@ def build(root: str) -> dict:
     p.add_argument("--cfg", action=ActionConfigFile)
     p.add_argument("--v", type=int, default=0)
     p.add_argument("--u", type=Optional[List[str]], default=None)
+    p.add_argument("--cls", type=Base)  # class-typed, NO default class: a spec without class_path must be rejected
+    p.add_argument("--grid", type=List[List[float]], default=[[5, 6]])
     return {"B": p}
 
 
@@ -112,8 +120,10 @@ def kw_code(env, defaults) -> str:
 PIECES = {
     "A": {
         "ok": [["--x=2"], ["--x", "3"], ["--w=[1,2]"], ["--w+=4"], ["--cls=Sub2"], ["--cls", MODNAME + ".Sub1"],
-               ['--cls={"class_path":"Sub2","init_args":{"k":1.5}}']],
-        "ok_nox": [["--w=[1,2]"], ["--w+=4"], ["--cls=Sub2"]],
+               ['--cls={"class_path":"Sub2","init_args":{"k":1.5}}'], ["--grid=[[9]]"], ['--stages=[[{"class_path":"Sub2"}]]'],
+               ['--table=[{"w": 2}]'], ['--stages+=[{"class_path":"Sub1"}]']],
+        "ok_nox": [["--w=[1,2]"], ["--w+=4"], ["--cls=Sub2"], ["--grid=[[9]]"], ['--stages=[[{"class_path":"Sub2"}]]'], ['--table=[{"w": 2}]']],
+        "sel": [['--cls={"class_path":"Sub2","init_args":{"k":1.5}}'], ["--cls", '{"class_path": "Sub2", "init_args": {"k": 1.25}}']],
         "bad": [["--x=bad"], ["--w=[a]"], ["--cls=NoSuchClass"], ["zzz"]],
         "unk": [["--nope=1"], ["--nope", "--other"]],
         "pc": [["--print_config"], ["--print_config="]],
@@ -121,7 +131,8 @@ PIECES = {
         "help": [["--help"], ["-h"]],
         "clshelp": [["--cls.help=Sub2"], ["--cls.help", "Sub1"]],
         "cfg": [["--cfg", '{"w": [7]}'], ["--cfg=w: [8]"], ["--cfg", "a_ok.yaml"]],
-        "cfgbad": [["--cfg", '{"w": "bad"}'], ["--cfg", "a_bad.yaml"], ["--cfg=no_such_file.yaml"]],
+        "cfgbad": [["--cfg", '{"w": "bad"}'], ["--cfg", "a_bad.yaml"], ["--cfg=no_such_file.yaml"],
+                   ["--cfg", '{"cls": {"init_args": {"k": "not a number"}}}']],
         "ncls": [["--cls=Sub1", "--cls.m=q"], ["--cls", "Sub2", "--cls.init_args.k", "2.5"]],
     },
     "A.a": {
@@ -142,17 +153,21 @@ PIECES = {
         "ncls": [["--c2=Sub2", "--c2.k=0.25"], ["--c2=Sub1", "--c2.init_args.m=s"]],
     },
     "B": {
-        "ok": [["--v=2"], ["--v", "3"], ["--u=[a,b]"], ["--u+=c"]],
+        "ok": [["--v=2"], ["--v", "3"], ["--u=[a,b]"], ["--u+=c"], ["--grid=[[7, 8]]"], ["--cls=Sub1"]],
+        "sel": [['--cls={"class_path":"Sub2","init_args":{"k":1.5}}'], ["--cls", '{"class_path": "Sub2", "init_args": {"k": 1.25}}']],
         "bad": [["--v=bad"], ["--u={}"]],
         "unk": [["--nope=1"]],
         "pc": [["--print_config"]],
         "pcflag": [["--print_config=bogus"]],
         "help": [["--help"]],
         "cfg": [["--cfg", '{"u": ["x"]}'], ["--cfg", "b_ok.yaml"]],
-        "cfgbad": [["--cfg", '{"v": "bad"}']],
+        "cfgbad": [["--cfg", '{"v": "bad"}'], ["--cfg", "b_bad.yaml"], ["--cfg", '{"cls": {"init_args": {"k": "not a number"}}}']],
     },
 }
-FILES = {"a_ok.yaml": "w: [9]\n", "a_bad.yaml": "x: bad\n", "sub_ok.yaml": "y: 6\n", "b_ok.yaml": "u: [f]\n"}
+FILES = {"a_ok.yaml": "w: [9]\n", "a_bad.yaml": "x: bad\n", "sub_ok.yaml": "y: 6\n", "b_ok.yaml": "u: [f]\n", "b_bad.yaml": "v: bad\n"}
+# class specs for the class-typed key `cls` of both parsers, given as a configuration text (parse_string) or file (parse_path)
+SPEC = {"full": [{"cls": {"class_path": "Sub2"}}, {"cls": {"class_path": MODNAME + ".Sub2", "init_args": {}}}],
+        "short": [{"cls": {"init_args": {"k": 3.5}}}]}
 ENVVAR = {"A": "APP_W", "B": "OTH_V"}
 
 
@@ -198,8 +213,10 @@ def concretize(ab: dict, rnd) -> dict:
             c["environ"] = {ENVVAR[p]: "bad"}
         elif c["kwargs"]["env"]:
             c["environ"] = rnd.choice([{}, {ENVVAR[p]: "[5]" if p == "A" else "5"}])
-    elif m in ("parse_object", "parse_string", "parse_env"):
-        if ab["pre"] == "fail":
+    elif m in ("parse_object", "parse_string", "parse_path", "parse_env"):
+        if ab.get("spec", "none") != "none":
+            obj = rnd.choice(SPEC[ab["spec"]])
+        elif ab["pre"] == "fail":
             obj = rnd.choice([{key1: "bad"}] + ([{"w": "bad"}, {"cls": {"class_path": "NoSuchClass"}}] if p == "A" else [{"u": 3}]))
         elif ab["dumpf"] == "error":
             obj = {"zz": 1}  # unknown key: the lenient dump of the print point and the validation both reject it
@@ -224,8 +241,8 @@ def concretize(ab: dict, rnd) -> dict:
             else:
                 obj = rnd.choice([{pre + key1.upper(): "6"}, {}])
             c["env"] = obj
-        elif m == "parse_string":
-            c["text"] = "x: [1" if (ab["pre"] == "fail" and rnd.random() < 0.3) else json.dumps(obj)
+        elif m in ("parse_string", "parse_path"):
+            c["text"] = "x: [1" if (ab["pre"] == "fail" and ab.get("spec", "none") == "none" and rnd.random() < 0.3) else json.dumps(obj)
         else:
             c["obj"] = obj
     elif m == "get_defaults":
@@ -247,7 +264,7 @@ def abstract_record(ab: dict, c: dict, coarse_tag=None) -> dict:
             "tag": tag_of(c["argv"]) if ab["m"] == "parse_args" else "-",
             "stag": tag_of(c["sargv"]) if ab["m"] == "parse_args" and c.get("sargv") is not None else "-", "items": list(ab["items"]), "sub": ab["sub"],
             "sitems": list(ab["sitems"]), "pre": ab["pre"], "sel": ab["sel"], "dumpf": ab["dumpf"], "late": ab["late"],
-            "ser": bool(ab["ser"]), "dkv": ab["dkv"]}
+            "ser": bool(ab["ser"]), "dkv": ab["dkv"], "spec": ab.get("spec", "none")}
 
 
 def hand_cfg(p: str, spec: dict):
@@ -273,6 +290,12 @@ def do_call(c: dict, parser, filedir: str):
         return parser.parse_object(json.loads(json.dumps(c["obj"])))
     if m == "parse_string":
         return parser.parse_string(c["text"])
+    if m == "parse_path":  # the same text, in a file of a sub-directory (parse_path works inside that directory)
+        os.makedirs(os.path.join(filedir, "conf"), exist_ok=True)
+        name = os.path.join("conf", "c" + hashlib.sha1(c["text"].encode()).hexdigest()[:10] + ".yaml")
+        with open(os.path.join(filedir, name), "w") as f:
+            f.write(c["text"])
+        return parser.parse_path(name)
     if m == "parse_env":
         return parser.parse_env(dict(c["env"]))
     if m == "get_defaults":
@@ -579,12 +602,12 @@ def make_tours(states: dict, init_key: str, op_ids: list, maxlen: int):
 # ------------------------------------------------------------------------------------------------ random histories beyond the model's universe
 def random_abstract(rnd, maxitems=4) -> dict:
     p = "A" if rnd.random() < 0.75 else "B"
-    m = rnd.choices(["parse_args", "parse_object", "parse_string", "parse_env", "get_defaults", "dump", "validate", "instantiate_classes"],
-                    [50, 10, 8, 6, 4, 8, 6, 5])[0]
+    m = rnd.choices(["parse_args", "parse_object", "parse_string", "parse_path", "parse_env", "get_defaults", "dump", "validate", "instantiate_classes"],
+                    [46, 8, 10, 6, 5, 6, 8, 5, 6])[0]
     ab = {"id": "", "m": m, "p": p, "kw": "-", "items": [], "sub": "none", "sitems": [], "pre": "ok", "sel": "none", "dumpf": "none",
-          "late": "ok", "ser": False, "dkv": "skip_none=True,skip_validation=False"}
+          "late": "ok", "ser": False, "dkv": "skip_none=True,skip_validation=False", "spec": "none"}
     if m == "parse_args":
-        kinds = ["ok", "ok", "ok", "bad", "unk", "pc", "pc", "pcflag", "help", "cfg", "cfgbad"] + (["clshelp", "ncls"] if p == "A" else [])
+        kinds = ["ok", "ok", "ok", "sel", "sel", "bad", "unk", "pc", "pc", "pcflag", "help", "cfg", "cfgbad", "cfgbad"] + (["clshelp", "ncls"] if p == "A" else [])
         ab["items"] = [rnd.choice(kinds) for _ in range(rnd.randint(0, maxitems))]
         if "clshelp" in ab["items"]:  # whatever follows --cls.help is handed to a throw-away help parser: keep it last
             ab["items"] = ab["items"][: ab["items"].index("clshelp") + 1]
@@ -607,9 +630,12 @@ def random_abstract(rnd, maxitems=4) -> dict:
             ab["late"] = "ok" if ("ok" in ab["items"] and rnd.random() < 0.6) else "fail"
         elif p == "A" and "ok" in ab["items"] and rnd.random() < 0.15:
             ab["late"] = "fail"
-    elif m in ("parse_object", "parse_string", "parse_env"):
+    elif m in ("parse_object", "parse_string", "parse_path", "parse_env"):
         r = rnd.random()
-        if r < 0.2:
+        if m in ("parse_string", "parse_path") and rnd.random() < 0.45:  # a class spec for `cls`, full or without class_path
+            ab["spec"] = rnd.choice(["full", "short"])
+            ab["pre"] = "fail" if ab["spec"] == "short" else "ok"
+        elif r < 0.2:
             ab["pre"] = "fail"
         elif r < 0.35 and m != "parse_env":
             ab["dumpf"], ab["late"] = "error", "fail"
@@ -653,18 +679,14 @@ def main(argv):
                           {"tlc_errors": mc.errors, "counterexample": mc.cex[:6000]})
         else:
             machinery_failure(PID, "TLC failed on MC_Context:\n" + mc.stdout[-3000:])
-    mcr = tlc.run("MC_Context", "MC_Context_repair", workers=workers, heap=heap, timeout=1500)
-    rep.add_tlc("MC_Context_repair", mcr)
-    if mcr.errors or mcr.rc != 0:
-        if mcr.violated:
-            rep.add_drift("the proposed repair (ClearOnError) does not establish HistoryIndependent in the model", {"violated": mcr.violated, "cex": mcr.cex[:3000]})
-        else:
-            machinery_failure(PID, "TLC failed on MC_Context_repair:\n" + mcr.stdout[-3000:])
-    mcs = tlc.run("MC_Context", "MC_Context_strict", workers=1, heap=heap, timeout=600)
-    rep.add_tlc("MC_Context_strict", mcs)
-    if not mcs.violated and (mcs.rc != 0 or mcs.errors):
-        machinery_failure(PID, "TLC failed on MC_Context_strict:\n" + mcs.stdout[-3000:])
-    rep.extra["model_counterexample_unguarded_invariant"] = (mcs.cex[:2500] if mcs.violated else "not violated: the Alg layer has no pending-request residue")
+    # documentation only: the design BEFORE fix 9a553c5 (ClearOnError = FALSE) violates the unguarded property; whatever
+    # this run does, it cannot fail the check
+    try:
+        mcs = tlc.run("MC_Context", "MC_Context_prefix", workers=1, heap=heap, timeout=300)
+        rep.add_tlc("MC_Context_prefix(documentation)", mcs)
+        rep.extra["prefix_design_counterexample"] = (mcs.cex[-1800:] if mcs.violated else f"not violated (rc={mcs.rc})")
+    except Exception as ex:  # noqa: BLE001
+        rep.extra["prefix_design_counterexample"] = f"run failed: {type(ex).__name__}"
 
     emitted = [p for p in mc.printed if isinstance(p, dict) and "key" in p]
     opsl = [p for p in mc.printed if isinstance(p, dict) and "ops" in p]
@@ -872,6 +894,8 @@ def _python_repro(calls) -> str:
             lines.append(f"P[{c['p']!r}].parse_object({c['obj']!r})")
         elif c["m"] == "parse_string":
             lines.append(f"P[{c['p']!r}].parse_string({c['text']!r})")
+        elif c["m"] == "parse_path":
+            lines.append(f"P[{c['p']!r}].parse_path(<file in ./conf holding {c['text']!r}>)")
         elif c["m"] == "parse_env":
             lines.append(f"P[{c['p']!r}].parse_env({c['env']!r})")
         elif c["m"] == "get_defaults":
